@@ -36,7 +36,13 @@ Definition cb_nested (b : cb) : option callsite := match b with CbEmit c _ => So
 
 Inductive xop :=
 | XBase (o : op)
-| XEmitCb (t : N) (cs : callsite) (b : cb).
+| XEmitCb (t : N) (cs : callsite) (b : cb)
+| XDeadScope (t : N) (cs : callsite).
+(** [XDeadScope t cs]: `with_default(&d, || event!(cs))` executed by thread t while its CURRENT_STATE thread-local is already
+    destroyed — from the destructor of another thread-local, at thread exit.  Every `CURRENT_STATE.try_with` fails:
+    State::set_default installs nothing (prior None) but still counts the scope (when [dead_open_counts]); get_default takes
+    the fast path if SCOPED_COUNT is 0 and otherwise hands out Dispatch::none(); the guard's drop decrements the counter and
+    restores nothing.  (Which dispatcher is "installed" is irrelevant: nothing is.) *)
 
 Inductive xobs :=
 | XO (o : obs)
@@ -51,6 +57,7 @@ Definition delivered_of (o : obs) : option N := match o with OEmit _ d => d | _ 
 Section XRun.
   Variable fx : bool.
   Variable unwind_resets : bool.
+  Variable dead_open_counts : bool.
   Variable static_max : levelfilter.
   Variable conf : N -> collector.
 
@@ -104,6 +111,10 @@ Section XRun.
       end
     else ({| xs := s1; ce := ce x |}, XOEmitCb con None None false).
 
+  (** get_default on a thread whose thread-local is destroyed: `try_with` fails, `f(&Dispatch::none())` — unless the fast path applies. *)
+  Definition gd_dead : gdfun :=
+    fun s _ => if Nat.eqb (scoped s) 0 then (s, get_global s) else (s, DNone).
+
   Definition xstep (x : xstate) (o : xop) : xstate * xobs :=
     match o with
     | XBase (Emit t cs) => let '(s', ob) := emit_with (xgd (ce x)) (xs x) t cs in ({| xs := s'; ce := ce x |}, XO ob)
@@ -117,6 +128,11 @@ Section XRun.
         ({| xs := s'; ce := match ob with OUnit => upd (ce x) t true | _ => ce x end |}, XO ob)
     | XBase o' => let '(s', ob) := step fx static_max conf (xs x) o' in ({| xs := s'; ce := ce x |}, XO ob)
     | XEmitCb t cs b => do_emit_cb x t cs b
+    | XDeadScope t cs =>
+        let s0 := xs x in
+        let s1 := if dead_open_counts then set_scoped s0 (S (scoped s0)) else s0 in
+        let '(s2, ob) := emit_with gd_dead s1 t cs in
+        ({| xs := set_scoped s2 (pred (scoped s2)); ce := ce x |}, XO ob)
     end.
 
   Fixpoint xrun (x : xstate) (h : list xop) : list (xobs * levelfilter) :=
@@ -132,11 +148,15 @@ Section XRun.
 End XRun.
 
 (** Forgetting the callbacks: the base history and the base observation. *)
-Definition erase_op (o : xop) : op := match o with XBase o' => o' | XEmitCb t cs _ => Emit t cs end.
+(** ([XDeadScope] has no base counterpart; it is mapped to the thread-less, specification-neutral [Rebuild] only to keep
+    positions aligned — the theorems about erased histories exclude it, see [no_reentry].) *)
+Definition erase_op (o : xop) : op :=
+  match o with XBase o' => o' | XEmitCb t cs _ => Emit t cs | XDeadScope _ _ => Rebuild end.
 Definition erase (h : list xop) : list op := map erase_op h.
 Definition base_obs (o : xobs) : obs :=
   match o with XO o' => o' | XONoCurrent => OBad | XOEmitCb con del _ _ => OEmit con del end.
-Definition no_reentry (h : list xop) : Prop := forall t cs b, In (XEmitCb t cs b) h -> cb_nested b = None.
+Definition no_reentry (h : list xop) : Prop :=
+  (forall t cs b, In (XEmitCb t cs b) h -> cb_nested b = None) /\ (forall t cs, ~ In (XDeadScope t cs) h).
 
 (** Encoders for the correspondence. *)
 Definition enc_xobs (x : xobs * levelfilter) : list N :=
@@ -149,5 +169,5 @@ Definition enc_xobs (x : xobs * levelfilter) : list N :=
   end.
 Definition mk_cb (k : N) (cs' : callsite) : cb :=
   match k with 0 => CbReturn | 1 => CbPanic | 2 => CbEmit cs' false | _ => CbEmit cs' true end.
-Definition xrun_case (fx unwind_resets : bool) (smax : N) (fs : list fspec) (h : list xop) : list (list N) :=
-  map enc_xobs (xrun fx unwind_resets (filter_of_N smax) (conf_of_list fs) xinit h).
+Definition xrun_case (fx unwind_resets dead_open_counts : bool) (smax : N) (fs : list fspec) (h : list xop) : list (list N) :=
+  map enc_xobs (xrun fx unwind_resets dead_open_counts (filter_of_N smax) (conf_of_list fs) xinit h).
